@@ -520,6 +520,49 @@ func genMany(c *explore.C) Case {
 	return Case{Doc: d, Render: genRender(c, p)}
 }
 
+// genDeep: counts beyond the structural scopes - a run under d = 4..15 nested (distinct) tags followed by a run under
+// the first k of them (k = 0, d/2, d-1: the closing tags pop back to exactly that depth), a line of 4..40 runs
+// alternating between two tag stacks, a cue of 4..40 lines, 9..33 comment lines, 3..12 regions.
+func genDeep(c *explore.C) Case {
+	var d vtt.Doc
+	cue := vtt.Cue{Start: 1000, End: 2000, ID: 1}
+	switch c.Choose("deep.kind", 5) {
+	case 0:
+		dp := explore.Pick(c, "deep.depth", 4, 5, 7, 8, 9, 10, 12, 15)
+		k := explore.Pick(c, "deep.back", 0, dp/2, dp-1)
+		cue.Lines = []vtt.Line{{Runs: []vtt.Run{{Text: "deep", Tags: append([]vtt.Tag{}, wideTags[:dp]...)}, {Text: " back", Tags: append([]vtt.Tag{}, wideTags[:k]...)}, {Text: " out"}}}}
+	case 1:
+		n := explore.Pick(c, "deep.runs", 4, 5, 8, 9, 16, 17, 40)
+		var ln vtt.Line
+		for i := 0; i < n; i++ {
+			ln.Runs = append(ln.Runs, vtt.Run{Text: fmt.Sprintf("r%d ", i), Tags: [][]vtt.Tag{{tagB}, {tagB, tagRed}, nil}[i%3]})
+		}
+		cue.Lines = []vtt.Line{ln}
+	case 2:
+		n := explore.Pick(c, "deep.lines", 4, 5, 8, 9, 16, 17, 40)
+		for i := 0; i < n; i++ {
+			cue.Lines = append(cue.Lines, vtt.Line{Runs: []vtt.Run{{Text: fmt.Sprintf("line %d", i), Tags: [][]vtt.Tag{nil, {tagI}}[i%2]}}})
+		}
+	case 3:
+		n := explore.Pick(c, "deep.comments", 9, 10, 16, 17, 33)
+		for i := 0; i < n; i++ {
+			cue.Comments = append(cue.Comments, fmt.Sprintf("comment line %d", i))
+		}
+		cue.Lines = []vtt.Line{{Runs: []vtt.Run{{Text: "x"}}}}
+	case 4:
+		n := explore.Pick(c, "deep.regions", 3, 4, 5, 9, 12)
+		for i := 0; i < n; i++ {
+			d.Regions = append(d.Regions, vtt.Region{ID: fmt.Sprintf("r%d", i), Lines: i + 1})
+		}
+		cue.Region = d.Regions[n-1].ID
+		cue.Lines = []vtt.Line{{Runs: []vtt.Run{{Text: "x"}}}}
+	}
+	d.Cues = []vtt.Cue{cue, {Start: 3000, End: 4000, ID: 2, Lines: []vtt.Line{{Runs: []vtt.Run{{Text: "after"}}}}}}
+	p := base()
+	p.rend = "eol lazy leaveopen"
+	return Case{Doc: d, Render: genRender(c, p)}
+}
+
 // ---------- core products and balls added by the value-domain widening ----------
 
 // wideProfile: every value table and every rendering choice point at once (deviation ball only).
@@ -709,6 +752,7 @@ func stages(thorough bool) []stage {
 		{sub: "coreM", p: coreM(), b: -1, read: true},
 		{sub: "coreC3", p: coreC3(), b: -1, read: true},
 		{sub: "many", b: -1, read: true, gen: genMany},
+		{sub: "deep", b: -1, read: true, gen: genDeep},
 		{sub: "ball", p: fullProfile(thorough), b: bound, read: true},
 		{sub: "wball", p: writeBall(thorough), b: bound},
 		{sub: "wide", p: wideProfile(false), b: 2, read: true},
